@@ -42,6 +42,10 @@ func TS(t time.Time) string { return t.UTC().Format(s3db.SQLiteTimeFormat) }
 
 const EndpointScheme = "verif://"
 
+// SharedEndpoint is the endpoint name that resolves to the running client's handle (TableOpts.SharedEndpoint).
+// Only for worlds in which one client runs at a time (sequential worlds and the scheduler).
+const SharedEndpoint = "shared-endpoint"
+
 // World is one closed system: a bucket, a logical clock and a set of SQL clients.
 type World struct {
 	B       *Bucket
@@ -56,6 +60,8 @@ type World struct {
 
 	RootOrder   func([]string) []string
 	RetireOrder func([]string) []string
+
+	active string // name of the client that runs (see SharedEndpoint)
 
 	id int
 }
@@ -99,6 +105,11 @@ func installHooks() {
 		}
 		name := strings.TrimPrefix(st.EndpointURL, EndpointScheme)
 		w.mu.Lock()
+		if name == SharedEndpoint {
+			// all clients name the same endpoint (as real deployments do, so that process-wide state keyed by
+			// the object URL is really shared); the handle is the one of the client that is running
+			name = w.active
+		}
 		h := w.handles[name]
 		w.mu.Unlock()
 		if h == nil {
@@ -256,6 +267,20 @@ func (w *World) NewClient(name string) *Client {
 	return c
 }
 
+// SetActive names the client that is running now (resolves SharedEndpoint).
+func (w *World) SetActive(name string) {
+	w.mu.Lock()
+	w.active = name
+	w.mu.Unlock()
+}
+
+// Lookup returns the open client of that name, or nil.
+func (w *World) Lookup(name string) *Client {
+	w.mu.Lock()
+	defer w.mu.Unlock()
+	return w.Clients[name]
+}
+
 var (
 	worldNoMu sync.Mutex
 	tabNo     int
@@ -281,6 +306,8 @@ type TableOpts struct {
 	Cache    int    // node_cache_entries, 0 = none
 	ReadOnly bool
 	Suffix   string // physical name = {T}+Suffix
+	// SharedEndpoint: name the same s3_endpoint as every other client that sets it (see SharedEndpoint)
+	SharedEndpoint bool
 }
 
 func (c *Client) sub(q string) string { return strings.ReplaceAll(q, "{T}", c.Tab) }
@@ -293,8 +320,12 @@ func (c *Client) CreateSQL(o TableOpts) string {
 	if o.Columns == "" {
 		o.Columns = "a primary key, b, c"
 	}
+	ep := c.Name
+	if o.SharedEndpoint {
+		ep = SharedEndpoint
+	}
 	s := fmt.Sprintf("create virtual table {T}%s using s3db (columns='%s', s3_bucket='bk', s3_endpoint='%s%s', s3_prefix='%s'",
-		o.Suffix, o.Columns, EndpointScheme, c.Name, o.Prefix)
+		o.Suffix, o.Columns, EndpointScheme, ep, o.Prefix)
 	if o.EPN > 0 {
 		s += fmt.Sprintf(", entries_per_node=%d", o.EPN)
 	}
@@ -312,12 +343,14 @@ func (c *Client) Create(o TableOpts) error { return c.Exec(c.CreateSQL(o)) }
 
 // Exec runs a statement; {T} is replaced by the client's table name.
 func (c *Client) Exec(q string, args ...interface{}) error {
+	c.W.SetActive(c.Name)
 	_, err := c.DB.Exec(c.sub(q), args...)
 	return err
 }
 
 // Affected runs a statement and returns the number of rows changed.
 func (c *Client) Affected(q string, args ...interface{}) (int64, error) {
+	c.W.SetActive(c.Name)
 	r, err := c.DB.Exec(c.sub(q), args...)
 	if err != nil {
 		return 0, err
@@ -380,6 +413,7 @@ func Render(v interface{}) string {
 
 // Query runs a query and renders all rows.
 func (c *Client) Query(q string, args ...interface{}) (Rows, error) {
+	c.W.SetActive(c.Name)
 	rs, err := c.DB.Query(c.sub(q), args...)
 	if err != nil {
 		return nil, err
